@@ -88,6 +88,10 @@ def _gen0(rng, tier):
         if len(present) < 2:
             continue
         S, F = [present[0]] + ([present[len(present) // 3]] if len(present) > 4 else []), [present[-1]] + ([present[-2]] if len(present) > 70 else [])
+        if tag == 'many-states' and rng.random() < 0.6:       # large basins (20+ labels each) of a sparse alphabet
+            pool = present[:]
+            rng.shuffle(pool)
+            S, F = pool[:rng.randint(14, 30)], pool[30:30 + rng.randint(14, 30)]
         yield {'k': 'wt' if tag == 'long' else rng.choice(['wt', 'paths']), 'trajs': trajs, 'S': S, 'F': F, 'form': rng.choice(['loa', 'obj']),
                'alpha': 'size-' + tag, 'mal': None}
     if tier == 'thorough':
